@@ -333,3 +333,23 @@ package index
 //@   ensures result1 != nil ==> effectFailed
 //@   ensures result1 == nil ==> effectFailed == old(effectFailed)
 //@   assigns effectFailed
+
+// explode writes one temporary shard per repository; an error other than "the
+// compound shard is empty" is a failed effect.
+//@ pure func isEmptyShard(e error) bool = errIs(e, ErrEmptyShard)
+//@ func index.explode
+//@   trusted
+//@   ensures result1 != nil && !isEmptyShard(result1) ==> effectFailed
+//@   ensures result1 == nil || isEmptyShard(result1) ==> effectFailed == old(effectFailed)
+//@   assigns effectFailed
+
+// Explode reports success only if the compound shard could be opened and
+// exploded, its files were removed, and every exploded shard was renamed into
+// place.
+//@ func index.Explode
+//@   requires !effectFailed
+//@   loop 1:
+//@     invariant !effectFailed
+//@   loop 2:
+//@     invariant true
+//@   ensures result == nil ==> !effectFailed
